@@ -163,6 +163,11 @@ def _attrs_read(fi: FuncInfo) -> List[str]:
 
 
 def _contractions(model: Model, L: RuleResult, table: Dict[str, ClassInfo]):
+    """cumsum and integrate of every sample-quadrature class are evaluated in index notation (domains/indexexpr.py) with y[c] and the
+    matrices the class holds as atoms: integrate(y) must be the last entry of cumsum(y) as a polynomial identity - the same matrices,
+    row -1, the same contraction - and in every term of cumsum the output position must be the ROW index of a weight matrix while y is
+    summed against its column index.  `sum(y.unsqueeze(-2) * w, -1)`, `w @ y[..., None]`, einsum and matmul spellings are one form."""
+    from ..domains import indexexpr as ix
     done = set()
     for name, cls in sorted(table.items()):
         cs, ig = cls.find_method("cumsum"), cls.find_method("integrate")
@@ -171,57 +176,49 @@ def _contractions(model: Model, L: RuleResult, table: Dict[str, ClassInfo]):
         if cs.fq in done:
             continue
         done.add(cs.fq)
-        ra, rb = _attrs_read(cs), _attrs_read(ig)
-        if ra == rb and ra:
-            L.ok(ig.fq, "%s.integrate reads exactly the matrices cumsum reads: %s" % (cs.cls.name if cs.cls else cls.name, ra))
+        cname = cs.cls.name if cs.cls else cls.name
+        attrs = sorted(set(_attrs_read(cs)) | set(_attrs_read(ig)))
+        vals = {}
+        try:
+            for fi in (cs, ig):
+                me, yp = fi.params()[:2]
+                env = {yp: ix.IX.atom("y", 1)}
+                for a_ in attrs:
+                    env["%s.%s" % (me, a_)] = ix.IX([("ax_%s_r" % a_), ("ax_%s_c" % a_)], [(ix.Fraction(1), ((a_, ("ax_%s_r" % a_, "ax_%s_c" % a_)),), frozenset())])
+                ev = ix.IndexEval(env)
+                ev.run(fi.node.body)
+                if ev.returned is None:
+                    raise ix.Unsupported("%s has no return value" % fi.qualname)
+                vals[fi.name] = ev.returned
+        except ix.Unsupported as e:
+            L.undecided(cs, cs.node, "cannot interpret %s.cumsum / integrate in index notation: %s" % (cname, e))
+            continue
+        C_, I_ = vals["cumsum"], vals["integrate"]
+        if len(C_.axes) != 1 or len(I_.axes) != 0:
+            L.bad(cs if len(C_.axes) != 1 else ig, (cs if len(C_.axes) != 1 else ig).node, "%s: cumsum must keep the sample axis and integrate must remove it (cumsum axes %s, integrate axes %s)"
+                  % (cname, C_.axes, I_.axes))
+            continue
+        L.ok(cs.fq, "%s.cumsum == %s" % (cname, C_.show()))
+        last = ix.fix_axis(C_, -1, -1)
+        if I_.same(last):
+            L.ok(ig.fq, "%s.integrate reads exactly the matrices cumsum reads and equals cumsum[..., -1]: %s" % (cname, I_.show()))
+            L.ok(ig.fq, "integrate takes row -1 (the last cumulative row) of the weights")
         else:
-            L.bad(ig, ig.node, "integrate reads %s but cumsum reads %s: the last cumulative entry and the integral use different weights" % (rb, ra))
-        # every weight matrix read in integrate is taken at row -1 (and only the weight matrices)
-        wnames = [a for a in rb if a.startswith("w")]
-        badrow = []
-        for n in ast.walk(ig.node):
-            if isinstance(n, ast.Attribute) and isinstance(n.value, ast.Name) and n.value.id == "self" and n.attr in wnames:
-                par = getattr(n, "_parent", None)
-                okr = False
-                if isinstance(par, ast.Subscript) and par.value is n:
-                    sl = par.slice
-                    parts = list(sl.elts) if isinstance(sl, ast.Tuple) else [sl]
-                    ints = [p for p in parts if not (isinstance(p, ast.Constant) and p.value is Ellipsis) and not isinstance(p, ast.Slice)]
-                    if len(parts) == 1:
-                        okr = ast.unparse(parts[0]) == "-1"          # w[-1] : first axis of an (nx, nx) matrix = row
-                    else:
-                        nonell = [p for p in parts if not (isinstance(p, ast.Constant) and p.value is Ellipsis)]
-                        okr = len(nonell) == 2 and ast.unparse(nonell[0]) == "-1" and isinstance(nonell[1], ast.Slice) and nonell[1].lower is None and nonell[1].upper is None
-                if not okr:
-                    badrow.append(n)
-        if wnames and not badrow:
-            L.ok(ig.fq, "integrate takes row -1 (the last cumulative row) of %s" % wnames)
+            L.bad(ig, ig.node, "integrate must contract y with the LAST ROW of the cumulative weights, exactly as cumsum does for its last entry: integrate == %s but "
+                  "cumsum[..., -1] == %s (the last cumulative entry and the integral differ)" % (I_.show(), last.show()))
+        # row / column roles in cumsum
+        axes, terms = C_.canonical()
+        bad_term = None
+        for (fs, nsum), coef in terms:
+            rows = [a_ for a_, idx in fs if a_.startswith("w") and len(idx) == 2 and idx[0] == "a0"]
+            anywhere = [a_ for a_, idx in fs if "a0" in idx]
+            ysum = [idx for a_, idx in fs if a_ == "y"]
+            if len(rows) != 1 or len(anywhere) != 1 or not ysum or any(not (isinstance(i, str) and i.startswith("s")) for idx in ysum for i in idx):
+                bad_term = (fs, coef)
+        if bad_term is None:
+            L.ok(cs.fq, "cumsum[r] contracts the column axis: in every term the output position is the row index of one weight matrix and y is summed")
         else:
-            L.bad(ig, enclosing_stmt(badrow[0]) if badrow else ig.node, "integrate must contract y with the LAST ROW of the cumulative weights")
-        # cumsum contracts the column axis
-        src = ast.unparse(cs.node)
-        yp = cs.params()[1]
-        pat_w = "torch.sum(%s.unsqueeze(-2) * self.w, dim=-1)" % yp
-        mm = [c for c in ast.walk(cs.node) if isinstance(c, ast.Call) and ast.unparse(c.func) == "torch.matmul"]
-        if pat_w in src:
-            L.ok(cs.fq, "cumsum[r] = sum_c w[r, c] * y[c]: y is broadcast along the row axis and the column axis is summed")
-        elif mm and all(ast.unparse(c.args[0]).startswith("self.") for c in mm):
-            L.ok(cs.fq, "cumsum = W @ y (matrix on the left: row r of W contracted with y) for %s" % [ast.unparse(c.args[0]) for c in mm])
-        else:
-            L.bad(cs, cs.node, "cumsum must contract the column axis of the weights with y (row r of W . y)")
-        # integrate contracts the same axis of y
-        es = [c for c in ast.walk(ig.node) if isinstance(c, ast.Call) and ast.unparse(c.func) == "torch.einsum"]
-        sm = [c for c in ast.walk(ig.node) if isinstance(c, ast.Call) and ast.unparse(c.func) == "torch.sum"]
-        okc = False
-        if es:
-            okc = all(isinstance(c.args[0], ast.Constant) and c.args[0].value.replace(" ", "") == "c,...c->..." for c in es)
-        elif sm:
-            kw = {k.arg: ast.unparse(k.value) for k in sm[0].keywords}
-            okc = kw.get("dim") == "-1"
-        if okc:
-            L.ok(ig.fq, "integrate sums over the sample axis (last axis of y) against that row")
-        else:
-            L.bad(ig, ig.node, "integrate must sum over the last axis of y against the last weight row")
+            L.bad(cs, cs.node, "cumsum must contract the column axis of the weights with y (row r of W . y): term %s" % (bad_term,))
 
 
 # ------------------------------------------------------------------------------------------ spline plumbing (C15-B)
@@ -256,47 +253,30 @@ def _spline_plumbing(model: Model, B: RuleResult):
         B.ok(init.fq, "value weights = trapezoid weights, slope weights = spline-gradient weights, both of the same x")
     else:
         B.bad(init, init.node, "wy / wk must be get_trapz_weights(x) / get_cspline_grad_weights(x)")
-    # slopes = spline_mat @ y in both methods; value part uses wy with y, slope part wk with ks
+    # slopes = spline_mat @ y in both methods; value part uses wy with y, slope part wk with ks: decided in index notation
+    from ..domains import indexexpr as ix
     for fi in (cs, ig):
-        yp = fi.params()[1]
-        d = function_defs(fi.node)
-
-        def ch(e, dd=0):
-            while isinstance(e, ast.Name) and len(d.get(e.id, [])) == 1 and dd < 4:
-                e = d[e.id][0]
-                dd += 1
-            return e
-
-        def is_y(e):
-            e = ch(e)
-            return ast.unparse(e) in (yp, "%s.unsqueeze(-1)" % yp)
-
-        def is_ks(e):
-            e = ch(e)
-            while isinstance(e, ast.Call) and isinstance(e.func, ast.Attribute) and e.func.attr == "squeeze":
-                e = e.func.value
-            return (isinstance(e, ast.Call) and ast.unparse(e.func) == "torch.matmul" and ast.unparse(e.args[0]) == "self.spline_mat" and is_y(e.args[1]))
-        pairs = []
-        for c in ast.walk(fi.node):
-            if isinstance(c, ast.Call) and ast.unparse(c.func) in ("torch.matmul", "torch.einsum"):
-                args = c.args[1:] if ast.unparse(c.func) == "torch.einsum" else c.args
-                if len(args) == 2:
-                    w = ast.unparse(args[0])
-                    w = w.split("[")[0]
-                    if w in ("self.wk", "self.wy"):
-                        pairs.append((w, "ks" if is_ks(args[1]) else ("y" if is_y(args[1]) else "?")))
-        if sorted(pairs) == [("self.wk", "ks"), ("self.wy", "y")]:
-            B.ok(fi.fq, "%s = wk . (spline_mat @ y) + wy . y: slope weights act on the spline slopes of this y, value weights on y" % fi.name)
-        else:
-            B.bad(fi, fi.node, "%s must combine wk with the slopes spline_mat @ y and wy with y (found %s)" % (fi.name, pairs))
-        rets = [r for r in own_nodes(fi.node) if isinstance(r, ast.Return)]
-        rv = ch(rets[-1].value) if rets else None
-        while isinstance(rv, ast.Call) and isinstance(rv.func, ast.Attribute) and rv.func.attr == "squeeze":
-            rv = ch(rv.func.value)
-        if isinstance(rv, ast.BinOp) and isinstance(rv.op, ast.Add):
+        me, yp = fi.params()[:2]
+        env = {yp: ix.IX.atom("y", 1)}
+        for a_ in ("wk", "wy", "spline_mat"):
+            env["%s.%s" % (me, a_)] = ix.IX.atom(a_, 2)
+        ev = ix.IndexEval(env)
+        spec = ix.IndexEval(env)
+        try:
+            ev.run(fi.node.body)
+            spec.run(ast.parse("return (torch.matmul({s}.wk, torch.matmul({s}.spline_mat, {y}.unsqueeze(-1))) + torch.matmul({s}.wy, {y}.unsqueeze(-1))).squeeze(-1)"
+                               .format(s=me, y=yp)).body)
+        except ix.Unsupported as e:
+            B.undecided(fi, fi.node, "cannot interpret CubicSplineSQuad.%s in index notation: %s" % (fi.name, e))
+            continue
+        want = spec.returned if fi is cs else ix.fix_axis(spec.returned, -1, -1)
+        got = ev.returned
+        if got is not None and got.same(want):
+            B.ok(fi.fq, "%s = wk . (spline_mat @ y) + wy . y: slope weights act on the spline slopes of this y, value weights on y [%s]" % (fi.name, got.show()))
             B.ok(fi.fq, "%s returns the SUM of the value part and the slope part" % fi.name)
         else:
-            B.bad(fi, rets[-1] if rets else fi.node, "%s must return value part + slope part" % fi.name)
+            B.bad(fi, fi.node, "%s must combine wk with the slopes spline_mat @ y and wy with y, and return value part + slope part: it is %s, expected %s"
+                  % (fi.name, got.show() if got is not None else None, want.show()))
 
 
 # ------------------------------------------------------------------------------------------ shape domain (C15-D, C15-R)
